@@ -1,25 +1,29 @@
 #!/bin/bash
-# Verifies each candidate mutant under /tmp/mut/out/<ID>/<X>/ against the CURRENT /repo HEAD in a scratch worktree:
+# usage: verify_mutants.sh [outdir=/tmp/mut/out] [id-regex]
+# Verifies each candidate mutant under <outdir>/<ID>/<X>/ against the CURRENT /repo HEAD in a scratch worktree:
 # patch applies, the 222 baseline tests still pass, the demo fails with the patch and passes without it.
 # Writes /tmp/mut/verify_report.tsv
 WT=/tmp/mv_wt
+OUTDIR=${1:-/tmp/mut/out}
+SEL=${2:-.}
 git -C /repo worktree remove --force $WT 2>/dev/null
 git -C /repo worktree add -q $WT HEAD || exit 1
 (cd $WT && /venv/bin/python setup.py build_ext --inplace >/dev/null 2>&1 && rm -rf build)
 OUT=/tmp/mut/verify_report.tsv
 : > $OUT
-for d in /tmp/mut/out/C*/[AB]; do
+for d in $OUTDIR/C*/[A-Z]; do
+  [[ "$d" =~ $SEL ]] || continue
   id=$(basename $(dirname $d)); x=$(basename $d)
   p=$d/patch.diff
   [ -f $d/patch_rebased.diff ] && p=$d/patch_rebased.diff
   if ! git -C $WT apply --check $p 2>/dev/null; then echo -e "$id\t$x\tNOAPPLY" >> $OUT; continue; fi
   git -C $WT apply $p
   if grep -q "specpart" $p; then (cd $WT && /venv/bin/python setup.py build_ext --inplace >/dev/null 2>&1; rm -rf build); fi
-  tests=$(cd $WT && /venv/bin/python -m pytest -q -p no:cacheprovider --timeout=900 --continue-on-collection-errors -n 6 2>&1 | tail -1)
-  (cd $WT && timeout 600 /venv/bin/python $d/demo.py >/dev/null 2>&1); rc_patched=$?
+  tests=$(cd $WT && PYTHONPATH=$WT /venv/bin/python -m pytest -q -p no:cacheprovider --timeout=900 --continue-on-collection-errors -n 6 2>&1 | tail -1)
+  (cd $WT && PYTHONPATH=$WT timeout 600 /venv/bin/python $d/demo.py >/dev/null 2>&1); rc_patched=$?
   git -C $WT checkout -- . ; git -C $WT clean -fdq -e '*.so' 2>/dev/null
   if grep -q "specpart" $p; then (cd $WT && /venv/bin/python setup.py build_ext --inplace >/dev/null 2>&1; rm -rf build); fi
-  (cd $WT && timeout 600 /venv/bin/python $d/demo.py >/dev/null 2>&1); rc_clean=$?
+  (cd $WT && PYTHONPATH=$WT timeout 600 /venv/bin/python $d/demo.py >/dev/null 2>&1); rc_clean=$?
   echo -e "$id\t$x\tAPPLIES\t$tests\tdemo_patched=$rc_patched\tdemo_clean=$rc_clean" >> $OUT
 done
 git -C /repo worktree remove --force $WT
